@@ -7,9 +7,9 @@ namespace WR.C20
 open WR.C06 List
 set_option linter.unusedSimpArgs false
 
-/-- text after which no atom can be absorbed: nothing, white space, or one of `"` `@` `#` `/` -/
+/-- text after which no atom can be absorbed: nothing, white space, or one of `"` `@` `#` `/` `;` -/
 def SafeFollow (r : Str) : Prop :=
-  r = [] ∨ ∃ c t, r = c :: t ∧ (isWs c = true ∨ c = '"' ∨ c = '@' ∨ c = '#' ∨ c = '/')
+  r = [] ∨ ∃ c t, r = c :: t ∧ (isWs c = true ∨ c = '"' ∨ c = '@' ∨ c = '#' ∨ c = '/' ∨ c = ';')
 
 theorem safe_facts (r : Str) (h : SafeFollow r) :
     stopsName r ∧ (∀ r', r ≠ '(' :: r') ∧ SafeNext r ∧ NumStop r ∧ startsIdent r = false ∧ (∀ t, r ≠ '%' :: t) := by
@@ -21,7 +21,7 @@ theorem safe_facts (r : Str) (h : SafeFollow r) :
     · intro t h; cases h
   · have key : isNameChar c = false ∧ c ≠ '\\' ∧ c ≠ '(' ∧ c ≠ '+' ∧ c ≠ '>' ∧ isDigit c = false ∧ c ≠ '.' ∧
         c ≠ 'e' ∧ c ≠ 'E' ∧ isNameStart c = false ∧ c ≠ '-' ∧ c ≠ '%' := by
-      rcases hc with hc | rfl | rfl | rfl | rfl
+      rcases hc with hc | rfl | rfl | rfl | rfl | rfl
       · simp [isWs] at hc
         rcases hc with (rfl | rfl) | rfl <;> decide
       all_goals decide
@@ -121,7 +121,7 @@ theorem number_text_head (r : Str) (f : Bool) (more : Str) (h : consumeNumber r 
 
 theorem atom_head (t : Tok) (txt : Str) (h : Atom t txt) :
     ∃ c tl, txt = c :: tl ∧ (isWsTok t = false → isWs c = false) ∧
-      (safeHeaded t = true → (isWs c = true ∨ c = '"' ∨ c = '@' ∨ c = '#' ∨ c = '/')) := by
+      (safeHeaded t = true → (isWs c = true ∨ c = '"' ∨ c = '@' ∨ c = '#' ∨ c = '/' ∨ c = ';')) := by
   cases h with
   | ident p s t hs =>
     obtain ⟨h1, _⟩ := ident_rt s txt [] hs trivial
@@ -252,36 +252,44 @@ theorem atom_nonempty (t : Tok) (txt : Str) (h : Atom t txt) : txt ≠ [] := by
 theorem consumeList_nil (total f : Nat) : consumeList Quirks.spec total (f + 1) none [] = ([], []) := by
   simp [consumeList, step]
 
-/-- tokenizing the text of a sequence of atoms gives the sequence back (positions aside) -/
-theorem seq_tokenize (ts : List Tok) (txt : Str) (h : Seq badPairs ts txt) :
-    ∀ total f, txt.length < f → strip (consumeList Quirks.spec total f none txt).1 = strip ts := by
+/-- what may follow a whole sequence: nothing, or a `;` -/
+def TailOk (tail : Str) : Prop := tail = [] ∨ ∃ tl, tail = ';' :: tl
+
+theorem tail_fol (t : Tok) (tail : Str) (h : TailOk tail) : Fol t tail := by
+  unfold Fol
+  rcases h with rfl | ⟨tl, rfl⟩
+  · split <;> exact Or.inl rfl
+  · split
+    · exact Or.inr ⟨';', tl, rfl, by decide⟩
+    · exact Or.inr ⟨';', tl, rfl, by simp⟩
+
+/-- tokenizing the text of a sequence of atoms, followed by nothing or by `;…`, gives the sequence
+back (positions aside) and goes on with what follows -/
+theorem seq_tokenize_tail (ts : List Tok) (txt : Str) (h : Seq badPairs ts txt) :
+    ∀ tail, TailOk tail → ∀ total f, (txt ++ tail).length < f →
+      strip (consumeList Quirks.spec total f none (txt ++ tail)).1
+        = strip ts ++ strip (consumeList Quirks.spec total f none tail).1 := by
   induction h with
-  | nil =>
-    intro total f hf
-    cases f with
-    | zero => omega
-    | succ f => simp [consumeList_nil, strip]
+  | nil => intro tail _ total f hf; simp [strip]
   | one t txt ha =>
-    intro total f hf
-    obtain ⟨q, hq⟩ := atom_step total t txt [] ha (Or.inl (by unfold Fol; split <;> exact Or.inl rfl))
-    simp only [List.append_nil] at hq
-    rw [consumeList_leaf total f txt _ [] hq hf]
-    cases f with
-    | zero => omega
-    | succ f =>
-      simp only [consumeList_nil, List.cons_append, List.nil_append]
-      rw [(atom_strip t txt ha q []).1, (atom_strip t txt ha 0 []).2]
+    intro tail ht total f hf
+    obtain ⟨q, hq⟩ := atom_step total t txt tail ha (Or.inl (tail_fol t tail ht))
+    rw [consumeList_leaf total f _ _ tail hq hf]
+    simp only [List.cons_append, List.nil_append]
+    rw [(atom_strip t txt ha q _).1, (atom_strip t txt ha 0 []).2]
+    simp [strip]
   | cons t txt t2 ts rest ha hs hw ih =>
-    intro total f hf
+    intro tail ht total f hf
     obtain ⟨txt2, more, ha2, hrest⟩ := seq_head t2 ts rest hs
-    have hfol := fol_of_pair t t2 txt txt2 more ha ha2 hw
-    rw [← hrest] at hfol
-    obtain ⟨q, hq⟩ := atom_step total t txt (sepOf badPairs t t2 ++ rest) ha hfol
+    have hfol := fol_of_pair t t2 txt txt2 (more ++ tail) ha ha2 hw
+    have hre : txt2 ++ (more ++ tail) = rest ++ tail := by rw [hrest]; simp
+    rw [hre] at hfol
+    obtain ⟨q, hq⟩ := atom_step total t txt (sepOf badPairs t t2 ++ (rest ++ tail)) ha hfol
     simp only [List.append_assoc] at hf ⊢
     rw [consumeList_leaf total f _ _ _ hq hf]
     simp only [List.cons_append, List.nil_append]
     rw [(atom_strip t txt ha q _).1, (atom_strip t txt ha 0 _).2]
-    have hlen : (sepOf badPairs t t2 ++ rest).length < f := by
+    have hlen : (sepOf badPairs t t2 ++ (rest ++ tail)).length < f := by
       have := atom_nonempty t txt ha
       cases txt with
       | nil => exact absurd rfl this
@@ -290,14 +298,24 @@ theorem seq_tokenize (ts : List Tok) (txt : Str) (h : Seq badPairs ts txt) :
     · have hsep : sepOf badPairs t t2 = ['/', '*', '*', '/'] := by simp [sepOf, hb]
       rw [hsep] at hlen ⊢
       simp only [List.cons_append, List.nil_append] at hlen ⊢
-      rw [consumeList_leaf total f _ _ _ (comment_step total rest) hlen]
+      rw [consumeList_leaf total f _ _ _ (comment_step total (rest ++ tail)) hlen]
       simp only [List.cons_append, List.nil_append]
-      have := ih total f (by simp only [List.length_cons] at hlen; omega)
+      have := ih tail ht total f (by simp only [List.length_cons] at hlen; omega)
       simp [strip, this]
     · have hsep : sepOf badPairs t t2 = [] := by simp [sepOf, hb]
       rw [hsep] at hlen ⊢
       simp only [List.nil_append] at hlen ⊢
-      rw [ih total f hlen]
+      rw [ih tail ht total f hlen]
+      simp
+
+/-- tokenizing the text of a sequence of atoms gives the sequence back (positions aside) -/
+theorem seq_tokenize (ts : List Tok) (txt : Str) (h : Seq badPairs ts txt) :
+    ∀ total f, txt.length < f → strip (consumeList Quirks.spec total f none txt).1 = strip ts := by
+  intro total f hf
+  have := seq_tokenize_tail ts txt h [] (Or.inl rfl) total f (by simpa using hf)
+  cases f with
+  | zero => omega
+  | succ f => simpa [consumeList_nil, strip] using this
 
 theorem atom_ser (t : Tok) (txt : Str) (h : Atom t txt) :
     serTok badPairs t = some txt ∧ serType t ≠ ['\\'] := by
